@@ -16,6 +16,7 @@ import (
 type SeqCase struct {
 	Mask, Mapper, Indirect bool
 	Verbose, Bulky         bool
+	Accept                 string
 	Requests               []SeqReq
 	FaultAt                int // index into Requests of the request that meets the fault
 	Fault                  Fault
@@ -29,6 +30,7 @@ type SeqReq struct {
 
 func genSeq(t *rapid.T) SeqCase {
 	c := SeqCase{Mask: rapid.Bool().Draw(t, "mask"), Mapper: rapid.Bool().Draw(t, "mapper"), Indirect: rapid.Bool().Draw(t, "indirect")}
+	c.Accept = rapid.SampledFrom(accepts).Draw(t, "accept")
 	c.Verbose = rapid.IntRange(0, 3).Draw(t, "verbose") == 0
 	c.Bulky = rapid.IntRange(0, 5).Draw(t, "bulky") == 0
 	n := rapid.IntRange(1, 6).Draw(t, "n")
@@ -54,6 +56,7 @@ func checkSeq(t *testing.T, c SeqCase) (v harness.Verdict) {
 		v.Class("bulky-entries")
 	}
 	r := newRigB(t, c.Mask, c.Mapper, c.Indirect, c.Bulky)
+	r.setAccept(c.Accept)
 	v.NonTrivial = len(c.Requests) > 1
 	for i, rq := range c.Requests {
 		faulty := i == c.FaultAt
